@@ -35,7 +35,8 @@ RULE = (
     "columns of string cells: convertible URIs / CURIEs, unknown values, delimiter-free and empty cells, cells with the "
     "separator, quotes, embedded newlines and carriage returns; header yes/no, every column index, tab and custom "
     "separators, both line terminators; all strict x passthrough x ambiguous combinations. Data frames: each pd_* method, "
-    "with and without target_column. The trace checker demands exactly one call of the dictated scalar method with the "
+    "with and without target_column, on frames with the default, a shuffled, a string, an offset index, and on filtered "
+    "and sorted frames. The trace checker demands exactly one call of the dictated scalar method with the "
     "dictated flags per cell, in row order, output cells equal to those calls' results (None => NA / empty cell), every "
     "other column, the header row and the row order unchanged. Fault enumeration: see level. key = operation x flags x "
     "table features (quoting-sensitive cells, carriage return, failing cells, header, separator, column position) x "
@@ -115,6 +116,18 @@ def run_case(ctx, g, rng):
         amb = rng.random() < 0.5
         target = rng.choice([None, None, "new", names[(col + 1) % ncols]])
         df = pd.DataFrame({names[j]: [r[j] for r in rows] for j in range(ncols)})
+        istyle = rng.choice(["default", "default", "shuffled", "strings", "offset", "filtered", "sorted"])
+        if n and istyle == "shuffled":
+            df.index = rng.sample(range(n), k=n)
+        elif n and istyle == "strings":
+            df.index = [f"row{i}" for i in rng.sample(range(n), k=n)]
+        elif n and istyle == "offset":
+            df.index = range(100, 100 + n)
+        elif n > 1 and istyle == "filtered":
+            df = df[[i % 3 != 1 for i in range(n)]]
+        elif n > 1 and istyle == "sorted":
+            df = df.sort_values(names[col], kind="stable")
+        S.counters[f"wl:frame-index:{istyle}"] += 1
         kw = {"strict": strict, "passthrough": pt}
         if meth in ("pd_compress", "pd_expand"):
             kw["ambiguous"] = amb
